@@ -7,7 +7,7 @@ PREDICATE = 'C07'
 LEAN_TARGETS = ['LLTD.Props.C07', 'LLTD.Props.C07H']
 VARIANT = 'plain'
 RULE = ('histories with k in {0,1,maxD-1,maxD,maxD+1,2maxD+3,300,random} distinct Probe/Train observations (maxD = (MTU-34)/20) plus '
-        'duplicates, frames for other stations and near-collision sources, interleaved Discover/Emit/QueryLargeTlv, followed by Queries '
+        'duplicates, frames for other stations and near-collision sources, interleaved Discover (same / changed / zero generation, either service)/Emit/QueryLargeTlv, followed by Queries '
         'until the more flag clears and one extra Query, then more observations and a Reset; MTU in {576,1500,9216,1492,1472, 576+0..39 (every residue of the descriptor size), random}, direct and bridged '
         'mapper; non-trivial = a QueryResp listing at least one observation; distinct = distinct projected transcript')
 ASSUMPTIONS = ['port contract as for C02', 'at most 300 distinct observations between Queries (the property\'s domain); beyond that the predicate is silent until a Reset']
@@ -44,7 +44,7 @@ def cases(rng, tier, X):
                 elif r < 0.14:
                     ops.append('rx 0 ' + F.probe(F.rand_mac(rng), own, F.rand_mac(rng), rng.choice(F.NEAR[1:])))   # for another station
                 elif r < 0.17:
-                    ops.append('rx 0 ' + rng.choice([F.discover(mapper, 1, 2, eth_src=eth), F.qltlv(mapper, own, 9, 0x11, 0, eth_src=eth),
+                    ops.append('rx 0 ' + rng.choice([F.discover(mapper, rng.choice([1, 1, 2, 0, F.rand_u16(rng)]), rng.randrange(65536), tos=rng.choice([0, 0, 1]), eth_src=eth), F.qltlv(mapper, own, 9, 0x11, 0, eth_src=eth),
                                                      F.emit(mapper, own, 3, [(1, 0, F.rand_mac(rng), F.rand_mac(rng))], eth_src=eth)]))
             for q in range(len(keys) // maxd + 2):
                 ops.append('rx 0 ' + F.query(mapper, own, rng.randrange(1, 65536), eth_src=eth))
